@@ -5,6 +5,8 @@ import (
 	"os"
 	"path/filepath"
 
+	"github.com/anz-bank/golden-retriever/reader/remotefs"
+
 	"github.com/anz-bank/sysl/pkg/pbutil"
 
 	"github.com/anz-bank/sysl/pkg/syslutil"
@@ -114,6 +116,15 @@ func (pc *ProjectConfiguration) ConfigureProject(root, module string, fs afero.F
 	logrus.Debugf("root is set to: %s\n", pc.Root)
 
 	pc.Fs = syslutil.NewChrootFs(fs, pc.Root)
+
+	// Relative to the root, the path of a local module can look like a remote resource (api.v1/team/svc/m.sysl:
+	// host/owner/repo/file), which the reader would fetch over the network. If that file exists under the root it
+	// is the one that was named: spell it so that it is read locally.
+	if m := filepath.ToSlash(pc.Module); (&remotefs.RemoteFs{}).IsRemote(m) && !syslutil.IsRemoteImport(m) {
+		if exists, err := afero.Exists(pc.Fs, pc.Module); err == nil && exists {
+			pc.Module = "./" + pc.Module
+		}
+	}
 
 	return nil
 }
